@@ -232,6 +232,38 @@ def witness_layout(chk):
     return found
 
 
+def check_reentrancy(chk):
+    """the position codecs behave like functions: nothing carried over from a failed socket, nothing shared between threads"""
+    import reent
+    from minecraft.networking.types import Position
+    from minecraft.networking.packets.clientbound.play import MultiBlockChangePacket as M
+    from minecraft.networking.connection import ConnectionContext
+    lay = dict(zip(chk.tables['known_protocols'], chk.tables['layout']))
+    trip = [(1, 2, 3), (-1, -1, -1), (0, 0, 0), (33554431, -2048, -33554432), (-5, 100, -7), (12345, 77, -54321)]
+    enc = []
+    for pv in (47, 404, 477, 757):
+        if lay.get(pv) not in ('yz', 'zy'):
+            continue
+        ctx = ConnectionContext(protocol_version=pv)
+        for t in trip:
+            enc.append(('Position@%d' % pv, (lambda v, s, ctx=ctx: Position.send_with_context(v, s, ctx)), t, struct.pack('>Q', spec_word(lay[pv] == 'zy', *t)),
+                        (lambda d, ctx=ctx: tuple(Position.read_with_context(Buf(d), ctx)))))
+    for (x, y, z) in [(1, 2, 3), (-1, -1, -1), (2 ** 21 - 1, -2 ** 19, -2 ** 21), (0, 0, 0)]:
+        enc.append(('ChunkSectionPos', M.ChunkSectionPos.send, (x, y, z), struct.pack('>Q', (x % 2 ** 22) * 2 ** 42 + (z % 2 ** 22) * 2 ** 20 + y % 2 ** 20),
+                    (lambda d: tuple(M.ChunkSectionPos.read(Buf(d))))))
+    reent.after_failure(chk, 'reentrancy', [e[:4] for e in enc])
+
+    def mk(send, v):
+        def call():
+            b = Buf()
+            send(v, b)
+            return b.out
+        return call
+    cases = [('%s.send%r' % (label, v), mk(send, v), exp) for label, send, v, exp, _r in enc]
+    cases += [('%s.read(%s)' % (label, exp.hex()), (lambda rd=rd, exp=exp: rd(exp)), v) for label, _s, v, exp, rd in enc]
+    reent.threaded(chk, 'reentrancy', cases, seconds=2.0 if chk.tier == 'thorough' else 0.6)
+
+
 def run(chk):
     bad = common.lint()
     if bad:
@@ -242,6 +274,7 @@ def run(chk):
         chk.broken('Properties/C04.v', out)
     check_positions(chk)
     check_csp_records(chk)
+    check_reentrancy(chk)
     chk.assumptions += ['struct.pack(">Q") / UnsignedLong, VarInt/VarLong (C03) carry the packed word', 'layout per version is observed by probing three triples that distinguish the layouts']
 
 
